@@ -87,6 +87,9 @@ var signedDuration = map[string]bool{"DataPoint.ElapsedTime": true}
 var unixZeroTime = map[string]bool{
 	"UpstreamOpenResponse.ServerTime":   true,
 	"DownstreamOpenResponse.ServerTime": true,
+	// the zero time.Time has no representation in the int64-nanosecond wire field; since the
+	// "fix: encode a zero BaseTime as 0" commit BaseTime follows the ServerTime rule (zero => Unix 0)
+	"BaseTime.BaseTime": true,
 }
 
 var (
